@@ -13,6 +13,12 @@ NAMING_ROOT = ("name-shadows-import", "name-shadows-import:documented-reserved-n
                "duplicate-class-name:sanitised")
 
 
+def _nfkc(t):
+    # Python normalises identifiers (NFKC): an error message spells '__i\u01c6_' as '__id\u017e_'
+    import unicodedata
+    return unicodedata.normalize("NFKC", t)
+
+
 def random_key(rng):
     n = rng.randint(1, 8)
     k = "".join(rng.choice(EXTRA_ALPHA) for _ in range(n))
@@ -137,7 +143,7 @@ def run_case(case):
             under = underscore_labels(a.run.registry, opts)
             under_cls = [m.name for m in a.run.registry.models if str(m.name).startswith("_")]
             if lf and ((under and fw == "attrs" and "attrs generated methods" in lf[0]["msg"]) or
-                       (under_cls and any(repr(n)[1:-1] in lf[0]["msg"] for n in under_cls))):
+                       (under_cls and any(_nfkc(repr(str(n))[1:-1]) in _nfkc(lf[0]["msg"]) for n in under_cls))):
                 # attrs strips the leading underscore of a private attribute for its __init__ argument: '_0x' -> '0x'
                 W("leading-underscore-label", f"keys {under!r:.100} / classes {under_cls!r:.60} get labels starting with an underscore (attrs strips it from __init__ "
                                               f"arguments; '__x' inside a class body is name-mangled): {lf[0]['msg']}")
